@@ -117,6 +117,7 @@ def step (st : State) (line : String) : State × String :=
     let cfg : Cfg := { limit := limit, nIdx := workers }
     ({ cfg := cfg, s := ActixNet.Srv.init cfg kinds, started := true }, "ok")
   | "pse" :: _ =>
+    if (kv ws "skip").isSome then (st, "skipped") else
     -- a real `Server` built through the builder, per listener: connect, pause, connect, resume.
     -- Prediction from the accept-loop model: what is dispatched between pause and resume, and after.
     match (kv ws "workers").bind (·.toNat?), kv ws "ls" with
